@@ -133,6 +133,7 @@ LEAFGEN = {
     "bytes1": lambda r: ({"k": "bytes", "v": [r.below(256)]}, {"k": "bytes"}),
     "bytes2": lambda r: ({"k": "bytes", "v": [251, 255]}, {"k": "bytes"}),
     "bytes3": lambda r: ({"k": "bytes", "v": [251, 239, 190]}, {"k": "bytes"}),
+    "bytesbig": lambda r: ({"k": "bytes", "v": [(i * 31 % 251) for i in range(r.choice([1025, 2049, 3073]))]}, {"k": "bytes"}),
     "uuid": lambda r: ({"k": "uuid", "v": UUID}, {"k": "uuid"}),
     "enum": lambda r: ({"k": "unit_variant", "idx": 0}, {"k": "enum", "variants": [{"form": "unit"}, {"form": "unit"}]}),
     "unit": lambda r: ({"k": "unit"}, {"k": "unit"}),
